@@ -6,7 +6,7 @@ from __future__ import annotations
 import ast
 import re
 
-from ..astutil import call_attr, calls_in, guard_facts, unparse, walk_local
+from ..astutil import alpha_same, call_attr, calls_in, guard_facts, unparse, walk_local
 from ..cfg import CFG
 from ..dataflow import reaching_defs, resolved_text
 from ..report import Finding, Report
@@ -340,7 +340,7 @@ def check_branch_folding(idx: Index, rep: Report) -> None:
         body = [unparse(s) for s in m.node.body]
         a, b, w = (x.arg for x in m.node.args.args[1:4])
         norms = [norm] if norm else ["to_signed", "to_unsigned"]
-        ok = any(body == [f"lhs = {n}({a}, {w})", f"rhs = {n}({b}, {w})", f"return lhs {op} rhs"] for n in norms)
+        ok = any(alpha_same([s_ for s_ in m.node.body if not (isinstance(s_, ast.Expr) and isinstance(s_.value, ast.Constant))], f"lhs = {n}({a}, {w})\nrhs = {n}({b}, {w})\nreturn lhs {op} rhs") for n in norms)
         if ok:
             r.ok(c.fq, f"{m.loc} {cname}: {norm or 'normalised'} lhs {op} rhs")
         else:
